@@ -69,7 +69,7 @@ def handleBl (toks : List String) : String :=
     match u.toNat? with
     | some unit =>
       let (b, out) := ops.foldl blStep (BitList.new unit, [])
-      s!"g={",".intercalate out.reverse} st={blDump b}"
+      s!"g={",".intercalate out.reverse} | st={blDump b}"
     | none => "bad-op"
   | _ => "bad-op"
 
@@ -93,16 +93,59 @@ def handleTrie (toks : List String) : String :=
           match t.hasPrefix w with
           | none => "P"
           | some b => if b == hasPrefixSpec sk w then boolStr b else (boolStr b ++ "!spec")
-        s!"r={"".intercalate rs} {dumpOut (trieDump t)}"
+        s!"r={"".intercalate rs} | {dumpOut (trieDump t)}"
     | _, _ => "bad-op"
+  | _ => "bad-op"
+
+/-- `trieall <d|c> <keys>`: build and probe with every key, every key minus its last byte and every key
+plus one byte; answer = number of probes, number of hits, FNV-1a of the answer string. -/
+def handleTrieAll (toks : List String) : String :=
+  match toks with
+  | [alpha, keys] =>
+    match parseList keys with
+    | some keys =>
+      let chars := if alpha = "c" then cidrChars else domainChars
+      match Trie.build chars keys with
+      | .charOutOfRange c => s!"err:char:{c}"
+      | .panic => "panic"
+      | .ok t =>
+        let extra := chars.alphabet.headD 48
+        let one := fun (w : Str) => match t.hasPrefix w with
+          | none => 'P' | some true => '1' | some false => '0'
+        let cs := keys.flatMap fun k => [one k, one k.dropLast, one (k ++ [extra])]
+        let hits := cs.countP (· == '1')
+        s!"n={cs.length} hits={hits} h={natToHex (fnv64 (String.ofList cs))}"
+    | none => "bad-op"
+  | _ => "bad-op"
+
+/-- `ac <patterns> <inputs>`: the Aho-Corasick library contract -/
+def handleAc (toks : List String) : String :=
+  match toks with
+  | [pats, ins] =>
+    match parseList pats, parseList ins with
+    | some pats, some ins =>
+      if !(pats.all fun p => p.all acValid) then "err"
+      else "r=" ++ String.ofList (ins.map fun i => if acContains pats i then '1' else '0')
+    | _, _ => "bad-op"
+  | _ => "bad-op"
+
+def validSetHex (f : Nat → Bool) : String := bytesToHex ((List.range 256).filter f)
+
+def handleAlpha (toks : List String) : String :=
+  match toks with
+  | ["d"] => "valid=" ++ validSetHex domainChars.isValid ++ " | order=" ++ bytesToHex domainChars.alphabet
+  | ["c"] => "valid=" ++ validSetHex cidrChars.isValid ++ " | order=" ++ bytesToHex cidrChars.alphabet
+  | ["ac"] => "valid=" ++ validSetHex acValid ++ " | order=" ++ bytesToHex acChars
   | _ => "bad-op"
 
 /-! ### matcher session -/
 
 structure Sess where
   bitLength : Nat := 0
-  log : List AddCall := []      -- reversed
-  built : Option (Except MErr Built) := none
+  log : List AddCall := []      -- reversed; a negative Go index is recorded as `bitLength` (addSetInt_neg)
+  cur : Built := ⟨#[]⟩          -- what queries see (`Built.unbuilt` before the first successful Build)
+  builds : Nat := 0             -- successful Builds so far
+  lateErr : Bool := false       -- an AddSet arrived after a successful Build (the tables are gone: error)
 
 def parseKind (s : String) : Kind :=
   match s with
@@ -124,38 +167,68 @@ def errStr : MErr → String
 
 def idxStr (l : List Nat) : String := if l.isEmpty then "-" else ",".intercalate (l.map toString)
 
+def wordsStr (ws : List Nat) : String := if ws.isEmpty then "-" else ".".intercalate (ws.map natToHex)
+
+def decodeWords (ws : List Nat) (n : Nat) : List Nat :=
+  (List.range n).filter fun i => (ws.getD (i / 32) 0).testBit (i % 32)
+
+def parseHits (hits : String) : Option (List Nat) :=
+  if hits = "-" then some [] else (hits.splitOn ",").mapM String.toNat?
+
 def handleSess (s : Sess) (line : String) : Sess × String :=
   match words line with
   | "bl" :: rest => (s, handleBl rest)
   | "trie" :: rest => (s, handleTrie rest)
+  | "trieall" :: rest => (s, handleTrieAll rest)
+  | "ac" :: rest => (s, handleAc rest)
+  | "alpha" :: rest => (s, handleAlpha rest)
+  | "cc" :: _ => (s, "same")       -- concurrent replay must equal the sequential answers
   | ["new", n] =>
     match n.toNat? with
-    | some n => ({ bitLength := n }, "ok")
+    | some n => ({ bitLength := n, cur := Built.unbuilt n }, "ok")
     | none => (s, "bad-op")
   | "add" :: idx :: kind :: toks =>
     let k := parseKind kind
-    match idx.toNat?, toks.mapM (parsePat k) with
-    | some i, some pats => ({ s with log := ⟨i, k, pats⟩ :: s.log }, "ok")
+    match idx.toInt?, toks.mapM (parsePat k) with
+    | some i, some pats =>
+      if s.builds > 0 then ({ s with lateErr := true }, "ok")
+      else
+        let i' := if i < 0 then s.bitLength else i.toNat
+        ({ s with log := ⟨i', k, pats⟩ :: s.log }, "ok")
     | _, _ => (s, "bad-op")
   | ["build"] =>
-    let r := (Matcher.replay s.bitLength s.log.reverse).build
-    ({ s with built := some r }, match r with | .ok _ => "ok" | .error e => errStr e)
+    if s.lateErr then (s, "err:toomany")
+    else if s.builds > 0 then ({ s with cur := s.cur.rebuild, builds := s.builds + 1 }, "ok")
+    else
+      match (Matcher.replay s.bitLength s.log.reverse).build with
+      | .ok b => ({ s with cur := b, builds := 1 }, "ok")
+      | .error e => (s, errStr e)
   | ["q", name, hits] =>
-    match s.built, hexStr? name, (if hits = "-" then some [] else (hits.splitOn ",").mapM String.toNat?) with
-    | some (.ok b), some name, some hits =>
-      match b.matchIndices name hits with
-      | none => (s, "crash")
-      | some louds =>
+    match hexStr? name, parseHits hits with
+    | some name, some hits =>
+      let b := s.cur
+      match b.matchBitmap name hits, b.matchIndices name hits with
+      | some ws, some louds =>
         let spec := b.matchIndicesSpec name hits
         let log := s.log.reverse
         -- docMatches is trivially false for an index no AddSet call addressed: evaluate it on the others
         let used := log.map (·.idx)
         let doc := (List.range s.bitLength).filter fun i => used.contains i && docMatches log i name hits
-        let extra := (if spec == louds then "" else s!" spec={idxStr spec}") ++
-          (if !plainName name || doc == louds then "" else s!" doc={idxStr doc}")
-        (s, s!"m={idxStr louds}{extra}")
-    | some (.error _), _, _ => (s, "nobuild")
-    | _, _, _ => (s, "bad-op")
+        let extra := (if decodeWords ws s.bitLength == louds then "" else s!" idx={idxStr louds}") ++
+          (if spec == louds then "" else s!" spec={idxStr spec}") ++
+          (if s.builds != 1 || !plainName name || doc == louds then "" else s!" doc={idxStr doc}")
+        (s, s!"w={wordsStr ws}{extra}")
+      | _, _ => (s, "crash")
+    | _, _ => (s, "bad-op")
+  | ["qall"] =>
+    -- every pattern text of the session as a query (no regex sets in such sessions)
+    let names := s.log.reverse.flatMap fun a => a.pats.map (·.s)
+    let outs := names.map fun nm =>
+      match s.cur.matchBitmap nm [] with
+      | some ws => wordsStr ws
+      | none => "crash"
+    let hit := outs.countP fun o => o.any fun c => c != '0' && c != '.' && c != '-'
+    (s, s!"n={outs.length} hit={hit} h={natToHex (fnv64 (" ".intercalate outs))}")
   | _ => (s, "bad-op")
 
 def main : IO Unit := lineLoopS ({} : Sess) handleSess
